@@ -480,7 +480,7 @@ Proof.
   clear Hlen. rename Hlen' into Hlen. subst body.
   destruct g as [|g0 [|g1 [|g2 [|g3 [|g4 [|g5 [|g6 [|g7 [|g8 g']]]]]]]]]; cbn [length] in Hlen; try lia.
   (* split the rest of g into the data phase and the tail *)
-  rewrite <- (firstn_skipn (length L) g') at 1 2 3 4.
+  rewrite <- (firstn_skipn (length L) g').
   set (gd := firstn (length L) g'). set (gt := skipn (length L) g').
   assert (Hgd : length gd = length L) by (subst gd; apply firstn_length_le; lia).
   destruct (loop_start s b rest g0 (g1 :: g2 :: g3 :: g4 :: g5 :: g6 :: g7 :: g8 :: gd ++ gt) Hq) as (sh & bs0 & A0 & B0).
